@@ -3,7 +3,7 @@
    [looser t t'] (Expr/Types.v): t' is t with type occurrences replaced by any
    and closed objects opened; [env_looser] lifts it to environments (variables,
    function results; availability, configuration and the JSON oracle equal). *)
-From AL Require Import Expr.Types Expr.TypesProofs Expr.Sema Expr.SemaProofs Expr.SemaObs Expr.SemaGenFacts Gen.GenFuncs.
+From AL Require Import Expr.MatrixTy Expr.MatrixTyProofs Expr.Types Expr.TypesProofs Expr.Sema Expr.SemaProofs Expr.SemaObs Expr.SemaGenFacts Gen.GenFuncs.
 
 (* looser is a preorder with any on top *)
 Theorem C06_looser_any : forall t, looser t TAny.
@@ -108,3 +108,18 @@ Print Assumptions C06_template_type_check_mono.
 Theorem C06_typed_input_check_mono : forall d t t', looser t t' -> typed_input_ok d t = true -> typed_input_ok d t' = true.
 Proof. exact typed_input_check_mono. Qed.
 Print Assumptions C06_typed_input_check_mono.
+
+(* the type of the `matrix` context built from a literal strategy.matrix is
+   monotone: typing any value / row / include entry less precisely (any for a
+   specific type, ...) yields a looser matrix type, hence by C06_accept_mono
+   every expression over `matrix` accepted before is still accepted.  (An
+   include element or include expression of OBJECT type replaced by a
+   non-object changes the key set; that step is outside the key-wise relation
+   and is covered by the end-to-end oracle only: see keeps_obj.) *)
+Theorem C06_matrix_ty_mono : forall m m', mtx_looser m m' -> looser (matrix_ty m) (matrix_ty m').
+Proof. exact matrix_ty_mono. Qed.
+Print Assumptions C06_matrix_ty_mono.
+
+Theorem C06_raw_value_ty_mono : forall v v', rawv_looser v v' -> looser (raw_ty v) (raw_ty v').
+Proof. exact raw_ty_mono. Qed.
+Print Assumptions C06_raw_value_ty_mono.
